@@ -352,6 +352,13 @@ pub struct ParseCase {
     pub g: u8,
 }
 
+impl ParseCase {
+    /// a byte-level fuzzer's string against parser `p`
+    pub fn fuzz(p: usize, s: &str) -> ParseCase {
+        ParseCase { p: p as u8, s: s.to_string(), g: gen::G_FUZZ as u8 }
+    }
+}
+
 pub struct ParseSub(pub &'static str);
 
 pub fn judge(p: usize, s: &str, g: usize) -> Outcome {
